@@ -12,20 +12,35 @@ Theorem C12_wild_is_standard_wildcard_semantics :
   forall ps s, wild ps s = true <-> Matches ps s.
 Proof. exact wild_iff_Matches. Qed.
 
-(* ---- matchPattern, repaired (coq/C12/fix.patch): equals the specification on ALL byte strings ---- *)
+(* ---- matchPattern with the end of the name anchored (coq/C12/fix_anchor.patch): equals the specification on
+        ALL byte strings.  This is the statement the property needs; the patch changes the pinned test
+        d2ir TestCompile/patterns/suffix, which requires `*l` to match `jingle`. ---- *)
 
 (* For every name (any bytes, any length, valid UTF-8 or not) and every pattern the parser can produce
-   (stars and literals alternate), the repaired function never panics and answers glob_matches. *)
+   (stars and literals alternate), the anchored function never panics and answers glob_matches. *)
 Theorem C12_match_pattern_spec :
-  forall s pat, alternating pat = true -> match_pattern_fixed s pat = Ok (glob_matches s pat).
-Proof. exact thm_fixed_spec. Qed.
+  forall s pat, alternating pat = true -> match_pattern_anchored s pat = Ok (glob_matches s pat).
+Proof. exact thm_anchored_spec. Qed.
 
 (* The same algorithm for any lower-casing function and any reserved-name test; with lw := map lower_rune on
    lists of code points this is the reading "over case-folded runes". *)
 Theorem C12_match_pattern_spec_generic :
   forall (lw : str -> str) (rsv : str -> bool) s pat, alternating pat = true ->
-    match_pattern_fixed_with lw rsv s pat = Ok (glob_matches_with lw rsv s pat).
-Proof. exact fixed_spec. Qed.
+    match_pattern_anchored_with lw rsv s pat = Ok (glob_matches_with lw rsv s pat).
+Proof. exact anchored_spec. Qed.
+
+(* ---- matchPattern, repaired so that the pinned suite stays green (coq/C12/fix.patch): for ALL byte strings it
+        never panics, never matches a keyword in any letter case, and answers "some prefix of the name matches";
+        it is exact for every pattern that ends in a star. ---- *)
+Theorem C12_match_pattern_fixed_total_prefix_match :
+  forall s pat, pat <> [] -> alternating pat = true ->
+    match_pattern_fixed s pat = Ok (glob_matches s (pat ++ [star])).
+Proof. exact thm_fixed_prefix. Qed.
+
+Theorem C12_match_pattern_fixed_trailing_star :
+  forall s pat, alternating (pat ++ [star]) = true ->
+    match_pattern_fixed s (pat ++ [star]) = Ok (glob_matches s (pat ++ [star])).
+Proof. exact thm_fixed_trailing. Qed.
 
 (* ---- matchPattern, pinned code ---- *)
 
@@ -74,7 +89,8 @@ Proof. exact thm_pinned_trailing. Qed.
 Theorem C12_match_never_reserved :
   forall s pat, pat <> [] ->
     (go_reserved s = true -> match_pattern_pinned s pat = Ok false) /\
-    (reserved_ci s = true -> match_pattern_fixed s pat = Ok false /\ glob_matches s pat = false).
+    (reserved_ci s = true ->
+       match_pattern_fixed s pat = Ok false /\ match_pattern_anchored s pat = Ok false /\ glob_matches s pat = false).
 Proof. exact thm_never_reserved. Qed.
 
 (* non-vacuity of the hypotheses *)
@@ -94,6 +110,8 @@ Proof. vm_compute. auto. Qed.
 Print Assumptions C12_wild_is_standard_wildcard_semantics.
 Print Assumptions C12_match_pattern_spec.
 Print Assumptions C12_match_pattern_spec_generic.
+Print Assumptions C12_match_pattern_fixed_total_prefix_match.
+Print Assumptions C12_match_pattern_fixed_trailing_star.
 Print Assumptions C12_match_pattern_tail_refuted.
 Print Assumptions C12_match_pattern_offsets_refuted.
 Print Assumptions C12_match_reserved_case_refuted.
